@@ -50,7 +50,9 @@ Scripts ==
   \cup Row("intr", "s_unary_intr", {1, 2, 3}, AnyExc) \cup Row("intr", "s_close_intr", {1, 2, 3}, AnyExc)
   \cup Row("intr", "s_tick_intr", {1, 2, 3}, O) \cup Row("intr", "s_xchg_intr", {1, 2}, O)
 MaxIdles == {0, 1, 2}
-Cases == {[kind |-> r.kind, script |-> r.script, pos |-> r.pos, exc |-> r.exc, mi |-> m] : r \in Scripts, m \in MaxIdles}
+\* shm = the pool was created with shm_size (every borrow gets its own shared-memory segment): explored at max_idle 1
+Cases == {[kind |-> r.kind, script |-> r.script, pos |-> r.pos, exc |-> r.exc, mi |-> m, shm |-> FALSE] : r \in Scripts, m \in MaxIdles}
+         \cup {[kind |-> r.kind, script |-> r.script, pos |-> r.pos, exc |-> r.exc, mi |-> 1, shm |-> TRUE] : r \in Scripts}
 
 OffBoundary(c) == c.kind # "clean"       \* the script leaves the connection in the middle of a message exchange
 \* the intended pool: never keeps an off-boundary connection, never keeps more than max_idle workers
